@@ -196,6 +196,11 @@ def handle (j : Json) : Except String Json := do
     let outs ← (← (← j.getObjVal? "outs").getArr?).mapM rawCellsFromJson
     let per ← (← (← j.getObjVal? "per").getArr?).toList.mapM jInt?
     return prefixesJson fb cells outs per
+  | "constants" =>
+    -- what this binary was compiled with (cross-check of the regenerated table, DESIGN §5)
+    let tags : List UInt8 := [K.tString, K.tInt, K.tFloat, K.tBool, K.tNone, K.tDate, K.tIntArr, K.tFltArr,
+      K.tDictEnd, K.tMetadata, K.tCell, K.tCumulative, K.tIncremental]
+    return Json.mkObj [("magic", hexJson K.magic), ("version", hexJson K.version), ("tags", hexJson tags)]
   | "infer" =>
     let ext := extOfString (← (← j.getObjVal? "ext").getStr?)
     let flag ← optFromJson (·.getBool?) (← j.getObjVal? "flag")
